@@ -141,17 +141,29 @@ def build_runner():
 
 
 def build_harness(cmd):
-    """go build -tags verif of one harness command against /repo's current working tree."""
+    """go build -tags verif of one harness command against /repo's current working tree
+    (or against $VERIF_REPO, a scratch copy used when testing seeded changes: an alternate go.mod
+    with the replace directive pointing there is passed with -modfile)."""
     os.makedirs(BUILD, exist_ok=True)
     gosum = os.path.join(HARNESS, "go.sum")
-    try:
-        src = open(os.path.join(REPO, "go.sum")).read()
-        if not os.path.exists(gosum) or open(gosum).read() != src:
-            open(gosum, "w").write(src)
-    except OSError:
-        pass
-    rc, out, _ = sh(["go", "build", "-tags", "verif", "-o", os.path.join(BUILD, cmd), "./cmd/" + cmd],
-                    cwd=HARNESS, env=GOENV, timeout=900)
+    def _gosum():
+        for d in (REPO, "/repo"):
+            try:
+                return open(os.path.join(d, "go.sum")).read()
+            except OSError:
+                continue
+        return None
+    src = _gosum()
+    if src is not None and (not os.path.exists(gosum) or open(gosum).read() != src):
+        open(gosum, "w").write(src)
+    args = ["go", "build", "-tags", "verif"]
+    if os.path.realpath(REPO) != "/repo":
+        alt = os.path.join(BUILD, "go.alt.mod")
+        mod = open(os.path.join(HARNESS, "go.mod")).read().replace("=> /repo", "=> " + REPO)
+        open(alt, "w").write(mod)
+        open(os.path.join(BUILD, "go.alt.sum"), "w").write(src or "")
+        args += ["-modfile", alt]
+    rc, out, _ = sh(args + ["-o", os.path.join(BUILD, cmd), "./cmd/" + cmd], cwd=HARNESS, env=GOENV, timeout=900)
     return rc == 0, out
 
 
